@@ -177,7 +177,11 @@ void profile_twin(RunCtx& ctx)
         static const int kinds[] = {MF_DUP_LOC_NAME, MF_DROP_ARG, MF_EXTRA_ARG, MF_UNKNOWN_TEMPLATE, MF_DUP_PROCESS,
                                     MF_UNKNOWN_PROCESS, MF_DUP_DECL, MF_DUP_PARAM, MF_DUP_TEMPLATE_NAME};
         int f = kinds[rng.below(sizeof kinds / sizeof kinds[0])];
-        if (apply_model_fault(m, f, rng)) {
+        // two bodies for one dynamic template put namesake locations into one scope: the same ambiguity as below
+        bool has_dyn = false;
+        for (auto& t : m.templs)
+            has_dyn |= t.dynamic;
+        if (!(f == MF_DUP_TEMPLATE_NAME && has_dyn) && apply_model_fault(m, f, rng)) {
             if (f == MF_DUP_LOC_NAME) {
                 // XTA attaches urgent/commit flags by name, XML by element: for namesakes only "no flag" means the same in both
                 for (auto& t : m.templs)
